@@ -290,7 +290,17 @@ pub fn run(tier: Tier, seed: u64) -> i32 {
             return 2;
         }
     };
-    let roots = session_roots(seed ^ 8, tier.pick(100, 800));
+    let mut roots = session_roots(seed ^ 8, tier.pick(100, 800));
+    {
+        // capture-storm roots: every eighth non-terminal root has many mutually attacking queens
+        let mut rng = Rng::stream(seed, 0x57_0A);
+        let extra = roots.len() / 7;
+        for _ in 0..extra {
+            let p = workload::queen_storm_position(&mut rng);
+            roots.push(History { start: p.clone(), moves: vec![], end: p });
+        }
+        roots.push(History { start: Pos::parse_fen("q2k2q1/1qnqn1qb/1n1P1n1b/2rnr2Q/1NQ1QN1Q/3Q3B/1QRQR1QB/Q2K2Q1 w - -").unwrap(), moves: vec![], end: Pos::parse_fen("q2k2q1/1qnqn1qb/1n1P1n1b/2rnr2Q/1NQ1QN1Q/3Q3B/1QRQR1QB/Q2K2Q1 w - -").unwrap() });
+    }
     let terminals = terminal_positions(seed, tier.pick(300, 3000));
     run.set("terminal_positions", json!({"total": terminals.len(), "checkmates": terminals.iter().filter(|p| in_check(p, p.stm)).count(), "stalemates": terminals.iter().filter(|p| !in_check(p, p.stm)).count()}));
     if terminals.len() < 50 {
